@@ -546,7 +546,12 @@ def _worker(args):
     runner = impl.ImplRunner()
     for (i, lines, meta), mo in zip(cases, model_out):
         runner.reset()
-        io = runner.run(lines)
+        try:
+            io = runner.run(lines)
+        except Exception as e:  # noqa  (the harness could not digest what the code under test did: a disagreement, not a crash of the check)
+            if os.environ.get("HX_STRICT"):
+                raise
+            io = [f"harness-crash {type(e).__name__}: {str(e)[:200]}"]
         a = _cut([vf(x) for x in io])
         b = _cut([vf(x) for x in mo])
         diff = None
